@@ -299,6 +299,18 @@ pub fn drive(args: &[String]) {
         }
         let cfg = json!({"w": w, "d": d, "hasher": bh.to_json(), "keys": keys});
         let mut steps: Vec<Value> = vec![];
+        // one scenario in three opens with the motif "content arrives by merge only": b is filled, merged into the fresh a,
+        // a is cleared, used again and merged again (a structure that tracks "was I touched" must count a merge as a touch)
+        if sci % 3 == 1 {
+            steps.push(json!({"obj": "b", "op": {"name":"add","key": 0, "n": 2, "via_add": false}}));
+            steps.push(json!({"obj": "b", "op": {"name":"add","key": 1 % nkeys, "n": 1, "via_add": true}}));
+            steps.push(json!({"obj": "a", "other": "b", "op": {"name":"merge"}}));
+            steps.push(json!({"obj": "a", "op": {"name":"clear"}}));
+            steps.push(json!({"obj": "a", "op": {"name":"add","key": 2 % nkeys, "n": 1, "via_add": true}}));
+            steps.push(json!({"obj": "a", "other": "b", "op": {"name":"merge"}}));
+            steps.push(json!({"obj": "a", "op": {"name":"clear"}}));
+            steps.push(json!({"obj": "a", "other": "b", "op": {"name":"merge"}}));
+        }
         let single = rng.chance(1, 8); // single-distinct-element streams
         for _ in 0..(20 + rng.below(80)) {
             let x = rng.below(100);
